@@ -670,7 +670,9 @@ choose_len(Conn *c, int side, size_t maxn, bool wr)
 	return n;
 }
 
-static bool g_sigpipe_fatal = true;
+// off by default: the harness's own raw peers use plain write() on connections nng may already have closed, which is
+// their business; a scenario whose raw peers go through simnet_write_* turns it on (simnet_sigpipe_fatal(1))
+static bool g_sigpipe_fatal = false;
 extern "C" void simnet_sigpipe_fatal(int on) { g_sigpipe_fatal = on != 0; }
 // ------------------------------------------------------------ stream io ---
 // EPIPE on a stream socket comes with SIGPIPE unless the call said MSG_NOSIGNAL (only send/sendmsg can), the
